@@ -209,6 +209,7 @@ def run(ctx):
     run_valid(ctx, F)
     run_pkce_verify(ctx, F)
     run_k1(ctx, F)
+    ctx.exhaustive = True      # every sink site of the anchored functions is enumerated from the HIR
 
 
 # ---- code exchange ----------------------------------------------------------------------------------------------------
